@@ -110,6 +110,8 @@ type genOpts struct {
 	MaxTSDB      int   // cap on real-TSDB stores (default maxTSDBStores)
 	OverlapCuts  bool  // chunks of one copy may overlap in time (scripted stores)
 	StepMs       int64 // spacing of samples in ms (default 1000), jittered by up to +20%
+	// series of a store whose external labels hold the replica label may carry a stored label of that name
+	StoredReplicaLabelToo bool
 }
 
 // Label alphabet. The replica label name "r" sorts between series label names ("j" < "r" < "z") so that
@@ -299,6 +301,11 @@ func genDataset(x *simkit.Exec, o genOpts) *dataset {
 						if ext.Get("r") == v {
 							rep = i
 						}
+					}
+					if o.StoredReplicaLabelToo && ext.Has("r") && x.Bool("storedreplicalabel", 1, 4) {
+						// a stored label named like the external replica label (federation, honor_labels):
+						// the external one wins, and it is the one the request asks to drop
+						stored = mergeLabels(stored, mkLabels("r", rValues[x.Draw("storedreplicavalue", len(rValues))]))
 					}
 				}
 				from, to := 0, len(lg.Samples)
